@@ -2,6 +2,7 @@
    One answer line per input line.
      p <forced lang id> <meta charset> <hex>   wbxml_parser_parse with content handlers registered;
                                                answer: "ok <events>" or "err <CODE>"
+     t <forced lang id> <meta charset> <hex>   wbxml_tree_from_wbxml; answer "ok <tree>" or "err <CODE> tree=null"
      x <1 = no string table> 0 <hex of XML>    wbxml_conv_xml2wbxml_run; answer "ok <wbxml hex>" or "err <CODE>"
      c <forced lang id> <meta charset> <hex>   wbxml_conv_wbxml2xml_run; answer "ok <xml hex>" or
                                                "err <CODE> xml=<null|nonnull> len=<n>"
@@ -18,6 +19,8 @@
 #include "wbxml_elt.h"
 #include "wbxml_buffers.h"
 #include "wbxml_errors.h"
+#include "wbxml_tree.h"
+#include "wbxml_lists.h"
 
 static char *out = NULL;
 static size_t out_len = 0, out_cap = 0;
@@ -83,6 +86,42 @@ static void h_chars(void *ctx, WB_UTINY *ch, WB_ULONG start, WB_ULONG length) {
 static void h_pi(void *ctx, const WB_UTINY *target, WB_UTINY *data) {
     (void) ctx; o_sep(); o_str("PI:"); o_hex(target, strlen((const char *) target)); o_str(":");
     o_hex(data, strlen((const char *) data));
+}
+
+/* ---- dump of the tree built by wbxml_tree_from_wbxml (same syntax as driver/C04_driver.ml):
+   E <tag> <nattrs> {<attrname> <value hex>} <nchildren> {node} | T <hex> | C <nchildren> {node} | R <lang id> <charset> <0|1> [node] */
+static void o_tree(WBXMLTree *t);
+static unsigned long n_children(WBXMLTreeNode *n) { unsigned long k = 0; WBXMLTreeNode *c; for (c = n->children; c; c = c->next) k++; return k; }
+static void o_node(WBXMLTreeNode *n) {
+    WBXMLTreeNode *c;
+    switch (n->type) {
+    case WBXML_TREE_ELEMENT_NODE: {
+        unsigned long i, na = n->attrs ? wbxml_list_len(n->attrs) : 0;
+        o_str("E "); o_tag(n->name); o_str(" "); o_num(na);
+        for (i = 0; i < na; i++) {
+            WBXMLAttribute *a = (WBXMLAttribute *) wbxml_list_get(n->attrs, i);
+            unsigned long len = wbxml_buffer_len(a->value);
+            const unsigned char *p = wbxml_buffer_get_cstr(a->value);
+            o_str(" "); o_attrname(a->name); o_str(" ");
+            if (len > 0) { if (p[len - 1] != 0) o_str("!"); o_hex(p, len - 1); } else o_hex(p, 0);
+        }
+        o_str(" "); o_num(n_children(n));
+        for (c = n->children; c; c = c->next) { o_str(" "); o_node(c); }
+        break; }
+    case WBXML_TREE_TEXT_NODE:
+        o_str("T "); o_hex(wbxml_buffer_get_cstr(n->content), wbxml_buffer_len(n->content)); break;
+    case WBXML_TREE_CDATA_NODE:
+        o_str("C "); o_num(n_children(n));
+        for (c = n->children; c; c = c->next) { o_str(" "); o_node(c); }
+        break;
+    case WBXML_TREE_TREE_NODE:
+        o_tree(n->tree); break;
+    default: o_str("?"); break;
+    }
+}
+static void o_tree(WBXMLTree *t) {
+    o_str("R "); o_num(t && t->lang ? (unsigned long) t->lang->langID : 0); o_str(" "); o_num(t ? (unsigned long) t->orig_charset : 0);
+    if (t && t->root) { o_str(" 1 "); o_node(t->root); if (t->root->next) o_str(" +SIBLING"); } else o_str(" 0");
 }
 
 static const char *errname(WBXMLError e) {
@@ -158,6 +197,13 @@ int main(void) {
                 printf("err %s xml=%s len=%lu\n", errname(e), xml == NULL ? "null" : "nonnull", (unsigned long) xml_len);
             }
             wbxml_conv_wbxml2xml_destroy(conv);
+        }
+        else if (strcmp(tok[0], "t") == 0) {
+            WBXMLTree *tree = NULL;
+            WBXMLError e = wbxml_tree_from_wbxml(d, (WB_ULONG) n, (WBXMLLanguage) forced, (WBXMLCharsetMIBEnum) meta, &tree);
+            out_len = 0; if (out) out[0] = 0;
+            if (e == WBXML_OK) { o_tree(tree); printf("ok %s\n", out ? out : ""); wbxml_tree_destroy(tree); }
+            else printf("err %s tree=%s\n", errname(e), tree == NULL ? "null" : "nonnull");
         }
         else if (strcmp(tok[0], "x") == 0) {
             /* XML text -> WBXML through the public API (used to turn the project's test corpus into WBXML) */
